@@ -23,13 +23,13 @@ CHECKS = {
 "C07": ("fault_enumeration", "(a) Stateful LSP histories against the real harper-ls binary in a sandbox (add-to-user/file-dictionary with words taken from published diagnostics, change, restart) with a set model: added words are accepted in every subsequently checked text they apply to, other diagnostics unchanged, file dictionaries do not leak, the dictionary file (lines as a set) equals the model, restarts reproduce. (c) Crash points: each save is recorded under strace; every prefix of the globally ordered file mutations and every short write is replayed in a file-system model (validated to reproduce the real final state) and must reload to the previous words or those plus the new word. (b) import/lint/persist histories on the wasm-facing Linter with a set model. (f) words added through harper-ls are not reported by harper-cli lint on the same path (plain, symlinked directory, symlinked file; names with spaces / non-ASCII / %). (d) a write error part-way through a save (RLIMIT_FSIZE) must leave every earlier word on disk. (e) large pre-existing dictionaries of multi-byte Latin words (LF/CRLF, regular file or relative symbolic link): nothing listed is reported after load, add and restart; the file holds exactly old words + new word; a link stays a link.",
         "Process death only (no power failure): a crash leaves a prefix of the recorded mutation sequence. Open known finding: a case variant of an earlier word replaces it (excluded by construction, exercised in a sub-run).",
         "model-based property testing over LSP and harper.js histories (proptest) + trace-and-replay crash-state enumeration (strace) + injected write fault"),
-"C08": ("exploration", "Generated multi-line documents (astral, combining, tabs, LF/CRLF, with/without trailing newline) opened in the real harper-ls under 9 language ids; for every diagnostic a codeAction request with its own range and at every char position inside it; oracle = independent LSP position arithmetic: diagnostic range == reference range of the embedded lint, every inside position returns that lint's fixes, each TextEdit applied like a client == Suggestion::apply on the char span; published set == in-process lints for plain/Markdown/HTML/Typst.",
+"C08": ("exploration", "Two racing sub-checks (code-action requests sent into an edit: every answer must be a quick fix of the text before or of the text after it; on Rust files the harness times the dictionary reload under the document lock and aims the requests at it). Generated multi-line documents (astral, combining, tabs, LF/CRLF, with/without trailing newline) opened in the real harper-ls under 9 language ids; for every diagnostic a codeAction request with its own range and at every char position inside it; oracle = independent LSP position arithmetic: diagnostic range == reference range of the embedded lint, every inside position returns that lint's fixes, each TextEdit applied like a client == Suggestion::apply on the char span; published set == in-process lints for plain/Markdown/HTML/Typst.",
         "Lone CR line ends are outside the property's domain and are not generated.",
         "property-based testing (proptest) against the real server; reference-model oracle"),
 "C09": ("exploration", "Stateful histories of batches of LSP messages against the real harper-ls; the harness owns the schedule by choosing the order in which it answers the handlers' workspace/configuration requests (= completion order of the in-flight handlers). After every batch the last publication of every document is compared with what a second, trivially sequential harper-ls process publishes for the newest text under the current settings and dictionaries (closed/deleted: empty). Histories include deletions of files, of directories (with/without trailing slash) and of sibling paths, user-dictionary file edits, and configuration changes whose notification arrives after an edit has already pulled the new settings. Four designed-in violations are excluded from the must-hold sub-space by construction and exercised in labelled sub-runs.",
         "The harness controls handler completion order, not the tokio worker interleaving between two awaits inside the server (sampled by repetition only).",
         "model-based / differential property testing over scheduled LSP histories (proptest vec(batch) + interpreter)"),
-"C10": ("exploration", "Invariant over strace -f syscall histories of generated harper-ls sessions (every notification and command except HarperOpen, incl. dictionary saves and the statistics write at shutdown; documents with non-local URIs and with absolute paths of 150-400 bytes; a user dictionary that is a relative symbolic link; dictionary paths changed silently by the client, with a state check that every added word is in the dictionary configured when the server last pulled its settings; one TCP-mode session and one TCP-mode start with port 4000 in use) and of a worker process that pushes generated documents through all front-ends, the harper.js API and statistics export/import: no socket/connect/send/bind/listen beyond the loopback listener, no resolver/TLS files, no exec, and writes only to the configured dictionary and statistics paths. The dependency-set clause is covered by a static cargo-metadata scan reported as an auxiliary.",
+"C10": ("exploration", "Files created and left behind must be the configured files themselves (scratch files of a failed save included; a user-dictionary setting may name a directory). Invariant over strace -f syscall histories of generated harper-ls sessions (every notification and command except HarperOpen, incl. dictionary saves and the statistics write at shutdown; documents with non-local URIs and with absolute paths of 150-400 bytes; a user dictionary that is a relative symbolic link; dictionary paths changed silently by the client, with a state check that every added word is in the dictionary configured when the server last pulled its settings; one TCP-mode session and one TCP-mode start with port 4000 in use) and of a worker process that pushes generated documents through all front-ends, the harper.js API and statistics export/import: no socket/connect/send/bind/listen beyond the loopback listener, no resolver/TLS files, no exec, and writes only to the configured dictionary and statistics paths. The dependency-set clause is covered by a static cargo-metadata scan reported as an auxiliary.",
         "strace sees every syscall of the process tree; the dependency scan is a deny-list, not generated-input search.",
         "property-based testing (proptest) of sessions under a syscall monitor (strace); invariant over the syscall history"),
 "C11": ("exploration", "Additivity of rule switches as a metamorphic relation (lints(S) = lints(A)+lints(B), sparse configurations (others absent / null) = dense ones (others false), full singleton decomposition, switching one rule off removes exactly its lints, all-off = nothing), overlay algebra against a map model (fill_with_curated, merge_from, clear, JSON round trip, unknown keys), a stateful check of the whole configuration API on one long-lived linter (map model; lints = fresh linter with the model's switches), the harper.js config path (also after further calls on the same Linter: word imports, checks in either language, state reads) and the harper-ls settings path (published diagnostics and the lints behind its code actions) against the in-process model; configurations range from a few entries to near-complete settings dumps with unknown names.",
@@ -44,7 +44,7 @@ CHECKS = {
 "C14": ("exploration", "Documents with repeated problems in equal/different neighbourhoods (also next to quotes); ignore a random subset; filter on the same text, after a JSON round trip of the ignore list, and after prepending/appending paragraphs; oracle uses an independent lint identity (fields + texts of tokens within the span and 2 chars around). The same problem in two texts differing right next to it (document start, punctuation, language) may only be hidden when the identity is equal. Through the real harper-ls: ignore one diagnostic, edit elsewhere (new identifiers, comments, prepended lines), differential against a server that ignored nothing. Through the harper.js Linter: other calls (same text in the other language, other texts, word imports) between showing a lint and ignoring it; reference = a fresh Linter with the same words.",
         "Only lints 3+ chars away from the edit boundary are judged after an edit.",
         "property-based testing (proptest); round-trip + metamorphic oracle with an independent identity relation"),
-"C15": ("exploration", "Curated FST / mutable / merged back-ends must answer membership, exact membership, metadata, canonical spelling and *_str twins identically; fuzzy search on every dictionary of <=2 (thorough 3) short words over {a,b,B,'} x every query <=3 x bounds x caps exhaustively, random dictionaries and the curated dictionary against brute-force Levenshtein; dictionaries of 40-90-letter words; constructed dictionaries with typographic apostrophes in the stored words: mutable, FST built from it and merged wrappers agree; merged = union (first child wins, an unrestricted entry for the very spelling lifts a dialect restriction).",
+"C15": ("exploration", "The fuzzy search of a merged dictionary offers exactly the (word, distance) pairs its children offer. Curated FST / mutable / merged back-ends must answer membership, exact membership, metadata, canonical spelling and *_str twins identically; fuzzy search on every dictionary of <=2 (thorough 3) short words over {a,b,B,'} x every query <=3 x bounds x caps exhaustively, random dictionaries and the curated dictionary against brute-force Levenshtein; dictionaries of 40-90-letter words; constructed dictionaries with typographic apostrophes in the stored words: mutable, FST built from it and merged wrappers agree; merged = union (first child wins, an unrestricted entry for the very spelling lifts a dialect restriction).",
         "Small dictionaries are built the way callers build them (MutableDictionary, then FstDictionary::from).",
         "differential + reference-model property testing (proptest) + exhaustive small-scope enumeration"),
 "C16": ("exploration", "Stateful call sequences on harper_wasm::Linter (native rlib): lint / apply_suggestion / ignore_lint / import_words / export-clear-import / rebuild from exports / set config, switching a rule that fires on a text between two lints of it, both languages, all dialects; intrinsic invariants (spans, disjointness, problem text, JSON round trips), reference splice, and a differential against an in-process model with the C14 identity for ignores.",
@@ -56,7 +56,7 @@ CHECKS = {
 "C18": ("exploration", "Generated single-paragraph titles (small words, proper nouns in wrong case / curly apostrophes, ligatures, Turkish dotted I, astral, hyphenated): same length, only case changes (or apostrophe normalisation inside a proper noun), first word upper-case, idempotent; the predicate form IsNotTitleCase reports a text exactly when title-casing changes it; both entry points (make_title_case_str and harper_wasm::to_title_case), paragraphs wrapped over lines and ending with a line break.",
         "Validity predicate from the statement.",
         "property-based testing (proptest); validity predicate + idempotence"),
-"C19": ("exploration", "Histories of append sessions of lint/config records with arbitrary-Unicode contexts (real tokens from lexing + Unlintable tokens holding any characters): one line feed per record, read(write(a)++write(b)) == a++b, write is a homomorphism, summary equals a reference fold; configuration records with explicit null entries, numbers that need an exact float parser; later sessions may carry older time stamps; the same sessions imported one by one through the harper.js Linter must export the concatenation; the statistics file written by real harper-ls sessions.",
+"C19": ("exploration", "The harper.js statistics file is generated before, between and after the imports and must read back as the records imported so far. Histories of append sessions of lint/config records with arbitrary-Unicode contexts (real tokens from lexing + Unlintable tokens holding any characters): one line feed per record, read(write(a)++write(b)) == a++b, write is a homomorphism, summary equals a reference fold; configuration records with explicit null entries, numbers that need an exact float parser; later sessions may carry older time stamps; the same sessions imported one by one through the harper.js Linter must export the concatenation; the statistics file written by real harper-ls sessions.",
         "Number tokens are produced only by real lexing, so only reachable values occur.",
         "round-trip property testing over append histories (proptest)"),
 }
